@@ -761,6 +761,14 @@ func (g *Gen) Case(i int) *Case {
 		c.Query = g.rangeFn(c)
 	case "agg":
 		c.Query = g.aggExpr(c, 1+g.r.Intn(2))
+	case "hist":
+		// histogram_quantile in all its input shapes (bare buckets, regex over two bucket
+		// metrics, aggregated and rated buckets), with constant and moving quantiles
+		q := g.pick("0.5", "0.9", "0.99", "0", "1", "-1", "2", "NaN", "scalar(n)", "time() / 1e10", "0.25")
+		c.Query = fmt.Sprintf("histogram_quantile(%s, %s)", q, g.histArg(c, 1))
+		if g.chance(0.2) {
+			c.Query = g.pick("sum(", "abs(", "max by (a) (") + c.Query + ")"
+		}
 	case "aggparam":
 		// aggregation parameters at and beyond the edges of their domain
 		inner := g.selectorCore("m")
